@@ -364,6 +364,18 @@ class Assembly(composites.Composite):
                     refB = refA[i + newBlocks]
                     newB = copy.deepcopy(b)
                     newB.setHeight(refB.getHeight())  # make block match ref mesh
+                    # each piece carries its height share of the volume-integrated parameters
+                    heightShare = refB.getHeight() / heightToChop
+                    for param in newB.p.paramDefs.atLocation(
+                        ParamLocation.VOLUME_INTEGRATED
+                    ):
+                        val = newB.p[param.name]
+                        if val is None or isinstance(val, str):
+                            continue
+                        elif isinstance(val, Iterable):
+                            newB.p[param.name] = [v * heightShare for v in val]
+                        else:
+                            newB.p[param.name] = val * heightShare
                     newBlockStack.append(newB)
                     heightChopped += refB.getHeight()
                     newBlocks += 1
@@ -1008,7 +1020,8 @@ class Assembly(composites.Composite):
                 heightHere = top - bottom
 
                 # Filter out blocks that have an extremely small height fraction
-                if heightHere / b.getHeight() > EPS:
+                # (as a product: a block of zero height has no overlap and must not divide by zero)
+                if heightHere > EPS * b.getHeight():
                     blocksHere.append((b, heightHere))
 
         totalHeight = 0.0
